@@ -227,7 +227,7 @@ impl Prop for C10 {
     fn meta() -> Meta {
         Meta {
             level: "exploration",
-            rule: "Each run: a program from the C03/C07 grammar (INPUT, STOP on) is entered into interpreter A, followed by a PRNG-scheduled history of up to 60 protocol-legal host calls chosen in the live state: RUN (to completion, to failure, or broken at a random boundary incl. while awaiting input and between a reply and the tick that consumes it), immediate statements that assign, DIM, open FOR loops, GOSUB/GOTO into the program, READ, RESTORE, NEXT, RETURN, CONT, line edits/deletions, seeds, flag changes. Then A and a fresh B (given only the numbered lines, in order) get the same flags, seed, RUN, ticks and replies. Oracle: every record, request position, final error kind+line and the deep probe snapshot (variables, arrays incl. content hash, stacks, functions, data cursor, breakpoint, pending reply, RNG state) are equal. distinct_nontrivial = distinct history hashes among runs whose final RUN took >= 5 boundaries.",
+            rule: "Each run: a program from the C03/C07 grammar (INPUT, STOP on) is entered into interpreter A, followed by a PRNG-scheduled history of up to 60 protocol-legal host calls chosen in the live state: RUN (to completion, to failure, or broken at a random boundary incl. while awaiting input and between a reply and the tick that consumes it), immediate statements that assign, DIM, open FOR loops, GOSUB/GOTO into the program, READ, RESTORE, NEXT, RETURN, CONT, statements refused at the nesting cap (255-300 levels), calls failing inside a user function, NEW + re-entry, line edits/deletions, seeds, flag changes. Then A and a fresh B (given only the numbered lines, in order) get the same flags, seed, RUN, ticks and replies. Oracle: every record, request position, final error kind+line and the deep probe snapshot (variables, arrays incl. content hash, stacks, functions, data cursor, breakpoint, pending reply, RNG state) are equal. distinct_nontrivial = distinct history hashes among runs whose final RUN took >= 5 boundaries.",
             real: &["abasic-core Interpreter (RUN / reset_runtime_state, breakpoint, pending input, data cursor, functions, stacks)"],
             stub: &["the host (history and final run schedule)"],
             assumptions: &["after NEW + replacement, B receives only the lines entered since (the replacement interpreter is fresh by definition)"],
